@@ -25,3 +25,10 @@ package kvstore
 //@   loop 1 invariant #states: forall t *table.Table {t.state} :: t.state == old(t.state)
 //@   loop 1 invariant #live_tables_registered [C12 C11]: forall c uint64 {c in k.tablesByCoefficient} :: old(c in k.tablesByCoefficient) && old(k.tablesByCoefficient[c]) != nil && old(k.tablesByCoefficient[c].state) != table.RecycledState ==>
 //@                (c in k.tablesByCoefficient) && k.tablesByCoefficient[c] == old(k.tablesByCoefficient[c])
+
+// evictTable drains table t into the active table. The active table is never drained into itself: it is retired
+// first, so the entries taken out of t are re-inserted somewhere else before they are deleted from t.
+//@ func (k *KVStore) evictTable(t *table.Table) error
+//@   props C11 C20
+//@   requires #inv_in: k.inv() && t != nil && t.inv() && k.tableSize <= 4611686018427387904
+//@   atcall table\.Table\)\.Range$ requires #the_drained_table_is_not_the_active_one [C11 C20]: len(k.tables) > 0 ==> t != k.tables[len(k.tables)-1]
